@@ -187,9 +187,26 @@ def lexer_spec_to_impl(tier, ev, verd, stats):
     stats["lexer_piece_kinds"] = kinds
     stats["lexer_stop_reasons"] = stops
     stats["lexer_strings"] = nstrings
-    for a in ("Ipv6", "Ipv4", "TwoCharPunctuation", "OneCharPunctuation", "AsNumber", "HexNumber", "Number",
-              "FStringStart", "String", "Char", "KeywordOrIdent", "SkipWhitespace", "ErrorToken", "EndOfInput"):
-        ev.impl_actions.add("Lexer." + a)
+
+
+
+TWO = {"EqEq", "BangEq", "AngleRightEq", "Arrow", "FatArrow", "PlusEq", "MinusEq", "SlashEq", "HyphenHyphen",
+       "AmpAmp", "PipePipe", "AngleLeftEq", "StarEq", "PercentEq", "SlashStar"}
+KIND_ACTION = {"IpV6": "Ipv6", "IpV4": "Ipv4", "Asn": "AsNumber", "Hex": "HexNumber", "Integer": "Number", "Float": "Number",
+               "FStringStart": "FStringStart", "String": "String", "Char": "Char", "Word": "KeywordOrIdent",
+               "<error>": "ErrorToken"}
+
+
+def note_impl_actions(ev, toks, nbytes):
+    """which Lexer actions the real lexer's token stream exhibits (measured, for the evidence file)"""
+    at = 0
+    for k, s, e in toks:
+        if s > at:
+            ev.impl_actions.add("Lexer.SkipWhitespace")
+        ev.impl_actions.add("Lexer." + (KIND_ACTION.get(k) or ("TwoCharPunctuation" if k in TWO else "OneCharPunctuation")))
+        at = e
+    if not toks or toks[-1][0] not in ("<error>", "FStringStart"):
+        ev.impl_actions.add("Lexer.EndOfInput")
 
 
 def compare_lex(c, src, res, verd, ev):
@@ -202,6 +219,7 @@ def compare_lex(c, src, res, verd, ev):
         ev.case(None, True, key="lex:" + vlib.shash(src))
         return
     got = observed_tokens(res)
+    note_impl_actions(ev, got, res["r"]["len"])
     if got != exp:
         what = lexer_mismatch_class(exp, got)
         verd.report({"kind": "lexer-range", "what": what},
@@ -518,7 +536,12 @@ def ill_groups():
         "enum E { V }\nfn f() -> E { E.V(1) }", "enum E { V }\nfn f() -> E { E.W }", "enum E { V }\nfn f() -> i32 { E.V.x }",
         "enum E[T] { V(T), N }\nfn f() -> E[i32] { E.N }", "enum E[T] { V(T), N }\nfn f() { let x = E.N; }",
         "record A[T] { x: T }\nfn f() { let a = A { x: [] }; }"]))
-    g.append(("type_decls_used", [with_uses(d) for d in g[-1][1]]))
+    decls = g[-1][1]
+    g.append(("type_decls_used", [with_uses(d) for d in decls if "List[" not in d]))
+    # types that are recursive through a List (the cycle detection lets them pass), used
+    g.append(("type_decls_list_used", [with_uses(d) for d in decls if "List[" in d] +
+              ["record A { x: List[A] }\nfn f(a: A) -> A { a }", "record A { x: List[List[A]] }\nfn f(a: A) {}",
+               "record A { x: List[A]? }\nfn f() -> A { A { x: Option.None } }"]))
     # valid but unusual programs (zero-sized and never-typed corners of generated code)
     g.append(("odd_valid", [
         "fn f(x: ()?, y: ()?) -> bool { x == y }", "fn f() -> List[()?] { [] }", "fn f(x: List[()], y: List[()]) -> bool { x == y }",
@@ -971,8 +994,10 @@ def totality(tier, ev, verd, stats):
     stats["inputs_rejected"] = totals["rejected"]
     stats["samples_totality"] = list(picked.values())
     shutil.rmtree(tree_root, ignore_errors=True)
-    for a in ("CompileOk", "CompileReport", "Render"):
-        ev.impl_actions.add("Totality." + a)
+    if outcomes.get("ok"):
+        ev.impl_actions.add("Totality.CompileOk")
+    if any(k.startswith("err") for k in outcomes):
+        ev.impl_actions.update(["Totality.CompileReport", "Totality.Render"])
 
 
 def totality_slice(cases, meta, ev, verd, outcomes, totals, picked):
